@@ -8,6 +8,7 @@ package main
 
 import (
 	"bufio"
+	"encoding/binary"
 	"encoding/json"
 	"flag"
 	"fmt"
@@ -127,26 +128,69 @@ func (d *driver) ipFrame(src, key, ipn string) []byte {
 	u := d.u
 	smac := u.MAC(src)
 	ip := u.IP(ipn)
+	pad := func(b []byte) []byte { // Ethernet padding to the 60 byte minimum, sometimes a longer trailer
+		if d.rng.Intn(3) == 0 {
+			for len(b) < 60 {
+				b = append(b, 0)
+			}
+			if d.rng.Intn(4) == 0 {
+				b = append(b, 0xde, 0xad, 0xbe, 0xef)
+			}
+		}
+		return b
+	}
 	if ip.Is4() {
 		dst := u.Cfg.RouterIP
-		switch d.rng.Intn(4) {
+		switch d.rng.Intn(8) {
 		case 0:
-			return vh.FrameIP4UDP(smac, vh.RouterMAC, ip, dst, 40000+uint16(d.rng.Intn(1000)), 123, []byte("ntp-ish payload"))
+			return pad(vh.FrameIP4UDP(smac, vh.RouterMAC, ip, dst, 40000+uint16(d.rng.Intn(1000)), 123, []byte("ntp-ish payload")))
 		case 1:
-			return vh.Ether(vh.RouterMAC, smac, 0x0800, vh.IP4(ip, netip.MustParseAddr("8.8.8.8"), 1, 64, 7, vh.ICMP4(8, 0, vh.Echo(9, 1, []byte("ping")))))
+			return pad(vh.Ether(vh.RouterMAC, smac, 0x0800, vh.IP4(ip, netip.MustParseAddr("8.8.8.8"), 1, 64, 7, vh.ICMP4(8, 0, vh.Echo(9, 1, []byte("ping"))))))
 		case 2:
 			tcp := make([]byte, 20)
 			tcp[12] = 5 << 4
-			return vh.Ether(vh.RouterMAC, smac, 0x0800, vh.IP4(ip, netip.MustParseAddr("1.2.3.4"), 6, 64, 7, tcp))
+			return pad(vh.Ether(vh.RouterMAC, smac, 0x0800, vh.IP4(ip, netip.MustParseAddr("1.2.3.4"), 6, 64, 7, tcp)))
+		case 3: // IPv4 header with options (IHL 6)
+			b := vh.IP4(ip, dst, 17, 64, 9, vh.UDP(5000, 6000, []byte{1, 2, 3, 4}))
+			opt := append(append([]byte{}, b[:20]...), 1, 1, 1, 0)
+			opt = append(opt, b[20:]...)
+			opt[0] = 0x46
+			binary.BigEndian.PutUint16(opt[2:4], uint16(len(opt)))
+			opt[10], opt[11] = 0, 0
+			binary.BigEndian.PutUint16(opt[10:12], vh.Cksum(opt[:24]))
+			return pad(vh.Ether(vh.RouterMAC, smac, 0x0800, opt))
+		case 4: // a later fragment (offset != 0) of some datagram
+			b := vh.IP4(ip, dst, 17, 64, 11, []byte{1, 2, 3, 4, 5, 6, 7, 8})
+			b[6], b[7] = 0x20, 0x10
+			b[10], b[11] = 0, 0
+			binary.BigEndian.PutUint16(b[10:12], vh.Cksum(b[:20]))
+			return pad(vh.Ether(vh.RouterMAC, smac, 0x0800, b))
+		case 5: // DHCP renew from the client's own address (host is tracked, payload is DHCP4)
+			if !u.Cfg.HomeLAN.Contains(ip) {
+				// off-LAN source: no host, and Notify would take the DHCP offer path, which the
+				// script vocabulary expresses with the separate "dhcpframe" action
+				return pad(vh.FrameIP4UDP(smac, vh.RouterMAC, ip, dst, 68, 1067, []byte("x")))
+			}
+			msg := vh.DHCP4(1, d.rng.Uint32(), 0, ip, netip.Addr{}, netip.Addr{}, netip.Addr{}, smac, []vh.DHCP4Opt{{Code: 53, Data: []byte{8}}})
+			return vh.FrameIP4UDP(smac, vh.RouterMAC, ip, dst, 68, 67, msg)
+		case 6: // IGMP membership report
+			return pad(vh.Ether(net.HardwareAddr{0x01, 0, 0x5e, 0, 0, 0x16}, smac, 0x0800, vh.IP4(ip, netip.MustParseAddr("224.0.0.22"), 2, 1, 3, []byte{0x22, 0, 0, 0, 0, 0, 0, 0})))
 		default:
-			return vh.FrameIP4UDP(smac, vh.Bcast, ip, netip.MustParseAddr("255.255.255.255"), 5000, 6000, []byte{1, 2, 3})
+			return pad(vh.FrameIP4UDP(smac, vh.Bcast, ip, netip.MustParseAddr("255.255.255.255"), 5000, 6000, []byte{1, 2, 3}))
 		}
 	}
-	switch d.rng.Intn(2) {
+	switch d.rng.Intn(4) {
 	case 0:
-		return vh.FrameIP6UDP(smac, vh.AllNodesM6, ip, vh.AllNodes6, 5353, 5353, make([]byte, 12))
+		return pad(vh.FrameIP6UDP(smac, vh.AllNodesM6, ip, vh.AllNodes6, 5353, 5353, make([]byte, 12)))
+	case 1: // hop-by-hop extension header in front of an ICMPv6 message (MLD style)
+		icmp := vh.ICMP6(ip, vh.AllNodes6, 143, 0, []byte{0, 0, 0, 0})
+		hbh := append([]byte{58, 0, 5, 2, 0, 0, 1, 0}, icmp...)
+		return pad(vh.Ether(vh.AllNodesM6, smac, 0x86dd, vh.IP6(ip, vh.AllNodes6, 0, 1, hbh)))
+	case 2: // neighbour solicitation
+		ns := append(make([]byte, 4), vh.AllNodes6.AsSlice()...)
+		return pad(vh.Ether(vh.AllNodesM6, smac, 0x86dd, vh.IP6(ip, vh.AllNodes6, 58, 255, vh.ICMP6(ip, vh.AllNodes6, 135, 0, ns))))
 	default:
-		return vh.Ether(vh.AllNodesM6, smac, 0x86dd, vh.IP6(ip, vh.AllNodes6, 58, 255, vh.ICMP6(ip, vh.AllNodes6, 128, 0, vh.Echo(3, 1, []byte("x")))))
+		return pad(vh.Ether(vh.AllNodesM6, smac, 0x86dd, vh.IP6(ip, vh.AllNodes6, 58, 255, vh.ICMP6(ip, vh.AllNodes6, 128, 0, vh.Echo(3, 1, []byte("x"))))))
 	}
 }
 
@@ -170,7 +214,7 @@ func (d *driver) dhcpFrame(mac string) []byte {
 }
 
 // untracked frames: every class the statement of C04 says must not create a host.
-var untrackedKinds = []string{"own-src-arp-forged", "own-src-ip4", "own-src-ip6", "own-src-arp", "mcast-src", "bcast-src", "offlan-ip4", "zero-ip4",
+var untrackedKinds = []string{"vlan-ip4", "unspec-ip6-src", "loopback-ip6-src", "own-src-arp-forged", "own-src-ip4", "own-src-ip6", "own-src-arp", "mcast-src", "bcast-src", "offlan-ip4", "zero-ip4",
 	"router-gua", "8023", "unknown-ethertype", "bad-ip4", "short", "mcast-ip6-src", "lldp", "arp-offlan", "arp-zero"}
 
 func (d *driver) untrackedFrame(kind string) []byte {
@@ -178,6 +222,14 @@ func (d *driver) untrackedFrame(kind string) []byte {
 	m1 := u.MAC("m" + strconv.Itoa(1+d.rng.Intn(3)))
 	lanip := u.IP("a" + strconv.Itoa(1+d.rng.Intn(3)))
 	switch kind {
+	case "vlan-ip4": // 802.1Q tagged frame carrying a complete IPv4 packet: documented as PayloadEther, not decoded
+		inner := vh.IP4(lanip, u.Cfg.RouterIP, 17, 64, 1, vh.UDP(1000, 2000, []byte("x")))
+		return vh.Ether(vh.RouterMAC, m1, 0x8100, append([]byte{0, 5, 0x08, 0x00}, inner...))
+	case "unspec-ip6-src": // duplicate address detection: source ::
+		ns := append(make([]byte, 4), u.IP("l1").AsSlice()...)
+		return vh.Ether(vh.AllNodesM6, m1, 0x86dd, vh.IP6(netip.IPv6Unspecified(), vh.AllNodes6, 58, 255, vh.ICMP6(netip.IPv6Unspecified(), vh.AllNodes6, 135, 0, ns)))
+	case "loopback-ip6-src":
+		return vh.FrameIP6UDP(m1, vh.AllNodesM6, netip.MustParseAddr("::1"), vh.AllNodes6, 1000, 2000, []byte("x"))
 	case "own-src-ip4":
 		return vh.FrameIP4UDP(vh.OwnMAC, vh.RouterMAC, lanip, u.Cfg.RouterIP, 1000, 2000, []byte("x"))
 	case "own-src-ip6":
